@@ -439,7 +439,9 @@ func MonProtocol(a *Analysis) []Violation {
 	for _, s := range a.Stray {
 		vs = append(vs, Violation{"Protocol", 0, "", s})
 	}
-	if a.Res.Aborted {
+	if a.Res.Blocked != "" {
+		vs = append(vs, Violation{"Protocol", 0, "", "Execute did not return: " + a.Res.Blocked})
+	} else if a.Res.Aborted {
 		vs = append(vs, Violation{"Protocol", 0, "", fmt.Sprintf("run did not end: cycle %d begun with MaxCycle %d", len(a.Cycles), a.Cfg.MaxCycle)})
 	}
 	// no action-side effect outside the window opened by an ExecuteRuleEntry notification
